@@ -12,6 +12,8 @@ Next ==
          V == CASE e.k = "cmp" -> CmpLaws(e)
                 [] e.k = "fmt" -> FmtLaws(e)
                 [] e.k = "serde" -> SerdeLaws(e)
+                \* a comparison of two byte strings never panics
+                [] e.k = "panic" -> {<<"C14", "no_panic">>}
                 [] OTHER -> {}
      IN /\ nviol' = nviol + (IF V # {} THEN 1 ELSE 0)
         /\ cnt' = Bump(cnt, e.k)
